@@ -1,6 +1,8 @@
 package main
 
 import (
+	"math"
+
 	"verifh/cmd/c09/tv"
 	"verifh/lib"
 )
@@ -41,6 +43,9 @@ func corpus(w *lib.Writer) {
 	add(ins(I(1)), ins(I(2)), ins(I(3)), Step{Op: "concat", SepNum: zp(0)}, Step{Op: "remnil"}, rd, Step{Op: "remnil"}, Step{Op: "remnil"}, Step{Op: "remnil"})
 	add(ins(I(5)), ins(I(3)), ins(I(8)), ins(I(1)), ins(I(9)), ins(I(2)), ins(I(7)), Step{Op: "sortmut", I: zp(1), Cmp: &Cmp{Kind: "lt"}})
 	add(Step{Op: "fill", N: 20, V: vp(I(4))}, Step{Op: "sortmut", I: zp(1), Cmp: &Cmp{Kind: "const", B: true}})
+	// hunt2 C18 obs-3 (fixed): empty ranges whose length wraps in an int must yield nothing
+	add(Step{Op: "unpack", I: zp(math.MaxInt64 - 1023), J: zp(math.MinInt64)}, ins(I(1)), ins(I(2)), ins(I(3)),
+		Step{Op: "unpack", I: zp(2), JHuge: true}, Step{Op: "unpack", I: zp(math.MaxInt64 - 1023), J: zp(math.MinInt64)}, Step{Op: "unpack", I: zp(4), J: zp(3)})
 	// C09-1 at the library level (fixed 875f0ec): unpack(t, 0, 1) sees t[0]
 	add(asg(0, S("z")), ins(S("a")), Step{Op: "unpack", I: zp(0), J: zp(1)})
 	// empty and one-element lists
